@@ -78,6 +78,9 @@
       g_slot [r;j;v]     the store of v into slot j of record r
       g_scan_begin [r]   the sync_.fetch_add that opens basic_smr::scan( r )
       g_scan_end (r :: kept)   its return, with the retired cells it left in the array
+      g_att [r] / g_det [r]    the thread became attached to / detached from record r (after the successful CAS of
+                               alloc_thread_data, before the releasing store of free_thread_data)
+      g_ld [k;v]               a load of client source k read v;   g_src [k;v;old]   an exchange wrote v, unlinked old
     They make "slot (r,j) held v at every step between s and d" and "the scan that began at s" predicates on the
     trace. *)
 From Coq Require Import ZArith List String Bool Lia PeanoNat.
@@ -186,9 +189,13 @@ Definition a_st_cur (r : nat) (l : list Z) : action := fun g =>
 Definition a_xchg_cur (r : nat) : action := fun g =>
   (upd_rec g r (set_ret []), VU, [EvAcc KXchg (obj_cur r) true]).
 
-Definition a_ld_src (k : nat) : action := fun g => (g, VZ (g_srcs g k), [EvAcc KLd (obj_src k) true]).
+(** client sources: the load reports what it read, the exchange what it wrote and what it unlinked (ghost events
+    g_ld / g_src); the client event "unlinked old" is part of the exchange step (the harness prints it right after) *)
+Definition a_ld_src (k : nat) : action := fun g =>
+  (g, VZ (g_srcs g k), [EvAcc KLd (obj_src k) true; EvCli "g_ld" [zn k; g_srcs g k]]).
 Definition a_xchg_src (k : nat) (v : Z) : action := fun g =>
-  (mkG (g_list g) (g_recs g) (fun i => if Nat.eqb i k then v else g_srcs g i), VZ (g_srcs g k), [EvAcc KXchg (obj_src k) true]).
+  (mkG (g_list g) (g_recs g) (fun i => if Nat.eqb i k then v else g_srcs g i), VZ (g_srcs g k),
+   [EvAcc KXchg (obj_src k) true; EvCli "g_src" [zn k; v; g_srcs g k]; EvCli "unlinked" [g_srcs g k]]).
 
 (** ** local computation: std::sort, binary_search, lower_bound + mark *)
 Fixpoint insert_sorted (x : Z) (l : list Z) : list Z :=
@@ -226,13 +233,13 @@ Section Programs.
     | [] => Ret None
     | r :: l' =>
         Act (a_cas_owner r) (fun v =>
-          if vB v then Act (a_st_free r false) (fun _ => Ret (Some r)) else reuse_loop l')
+          if vB v then Emit [EvCli "g_att" [zn r]] (Act (a_st_free r false) (fun _ => Ret (Some r))) else reuse_loop l')
     end.
 
   Fixpoint push_loop (fuel : nat) (r : nat) (exp : list nat) : prog bool :=
     match fuel with
     | O => Ret false
-    | S f => Act (a_cas_head exp r) (fun v => if vB v then Ret true else push_loop f r (vR v))
+    | S f => Act (a_cas_head exp r) (fun v => if vB v then Emit [EvCli "g_att" [zn r]] (Ret true) else push_loop f r (vR v))
     end.
 
   (** [None] = fuel exhausted in the head CAS loop *)
@@ -388,7 +395,7 @@ Section Programs.
     bind (clear_loop r (seq 0 H)) (fun _ =>
       bind (scan r) (fun _ =>
         bind (if help then help_scan r else Ret tt) (fun _ =>
-          Act (a_st_owner r false) (fun _ => Ret tt)))).
+          Emit [EvCli "g_det" [zn r]] (Act (a_st_owner r false) (fun _ => Ret tt))))).
 
   (** *** destruct( true ) = detach_all_thread + ~basic_smr, executed by one thread after the workers stopped *)
   Fixpoint detach_all_loop (l : list nat) : prog unit :=
@@ -480,10 +487,9 @@ Section Programs.
                   Emit [cli "publish" [zn k; o]]
                     (Act (a_xchg_src k o) (fun v =>
                        let old := vZ v in
-                       Emit [cli "unlinked" [old]]
-                         (if old =? 0 then Ret (Some lo)
-                          else Emit [cli "retire" [old]]
-                                 (bind (retire r old) (fun _ => Emit [cli "retired" []] (Ret (Some lo)))))))
+                       if old =? 0 then Ret (Some lo)
+                       else Emit [cli "retire" [old]]
+                              (bind (retire r old) (fun _ => Emit [cli "retired" []] (Ret (Some lo))))))
               | ORetire o =>
                   if (o <=? 0) || (ARENA <=? o) then Emit [cli "skip" []] (Ret (Some lo))
                   else Emit [cli "retire" [o]]
